@@ -18,7 +18,7 @@ DefaultDumper = getattr(yaml, "CDumper", yaml.Dumper)
 
 
 def default_encoder(data: Any) -> EncodedData:
-    return yaml.dump(data, Dumper=DefaultDumper)
+    return yaml.dump(data, Dumper=DefaultDumper, sort_keys=False)
 
 
 def default_decoder(data: EncodedData) -> dict[Any, Any]:
